@@ -860,9 +860,23 @@ class ExprMixin:
         if not gs:
             return
         for gname, (evname, idx, S) in (getattr(self.path, 'gseq_decl', None) or {}).items():
-            if evname != name or (idx is not None and idx < 0) != returned:
+            if evname != name:
                 continue
-            v = 1 if idx is None else ev[idx]          # (no component: the ghost sequence only counts the events)
+            if isinstance(idx, (str, tuple)):
+                # a keyword argument of the event ('name'), or one component of a tuple-valued keyword argument (('name', j))
+                if returned:
+                    continue
+                kwn, comp = (idx, None) if isinstance(idx, str) else idx
+                kws = getattr(ev, 'kw', None) or {}
+                if kwn not in kws:
+                    raise Unsupported(f'ghost sequence {gname}: the event {name} has no keyword argument {kwn}')
+                v = kws[kwn]
+                if comp is not None:
+                    v = v[comp]
+            elif (idx is not None and idx < 0) != returned:
+                continue
+            else:
+                v = 1 if idx is None else ev[idx]          # (no component: the ghost sequence only counts the events)
             t = self.unwrap_term(v)
             if not z3.is_expr(t):
                 t = self.zs.lift(t, self.zs.zsort(S))
